@@ -411,6 +411,48 @@ def bitfield_part(ck):
     ck.count("structs_with_lock_scanned_for_bitfields", n)
 
 
+def static_state_part(ck):
+    """the per-connection locks protect per-connection state: an object with static storage duration that the CS104 client / server
+    code WRITES (a file-scope object assigned to inside a function or handed to a pointer variable, or any non-const function-local static) is shared by all
+    connections of the process and protected by none of their locks.  Purely syntactic, over the analysed CS104 files; the unchanged
+    files have no such object (the file-scope statics are the constant U-format messages and the default parameters, only read)."""
+    n = 0
+    for rel in ("src/iec60870/cs104/cs104_slave.c", "src/iec60870/cs104/cs104_connection.c"):
+        path = core.LIBROOT / rel
+        try:
+            txt = path.read_text(errors="replace")
+        except OSError:
+            continue
+        t = re.sub(r"/\*.*?\*/", lambda m: re.sub(r"[^\n]", " ", m.group(0)), txt, flags=re.S)
+        t = re.sub(r"//[^\n]*", "", t)
+        decl = re.compile(r"^([ \t]*)static\s+(?!inline\b)([^;{}()=]*?)\b([A-Za-z_]\w*)\s*((?:\[[^\]]*\])*)\s*(=|;)", re.M)
+        body = decl.sub(lambda m: "\n" * m.group(0).count("\n"), t)       # the declarations themselves are not writes
+        for m in decl.finditer(t):
+            indent, quals, name = m.group(1), m.group(2), m.group(3)
+            line = t[:m.start()].count("\n") + 1
+            n += 1
+            if indent:         # inside a function
+                if re.search(r"\bconst\b", quals):
+                    continue
+                ck.fail("input", "static-state:%s:%s" % (rel.split("/")[-1], name),
+                        "%s:%d: function-local static object `%s`: one object for all connections of the process, written under per-connection locks only" % (rel.split("/")[-1], line, name),
+                        {"file": rel, "line": line, "object": name})
+                continue
+            w = re.search(r"(?<![\w.>])%s\s*(?:\[[^\]]*\])*(?:\s*\.\s*\w+)*\s*(?:=(?!=)|\+\+|--|\+=|-=|\|=|&=|\^=)" % re.escape(name), body)
+            if not w and not re.search(r"\bconst\b", quals):
+                # handed to a pointer variable: whatever is written through that pointer is written to the shared object
+                # (an array decays to a pointer to the object itself; a struct assigned by value is a copy and does not count)
+                w = re.search(r"=\s*&\s*%s\b" % re.escape(name), body)
+                if not w and m.group(4):
+                    w = re.search(r"=\s*%s\s*(?:[;+,)])" % re.escape(name), body)
+            if w:
+                wl = body[:w.start()].count("\n") + 1
+                ck.fail("input", "static-state:%s:%s" % (rel.split("/")[-1], name),
+                        "%s:%d: file-scope object `%s` (declared at line %d) is written: one object for all connections of the process, protected by none of the per-connection locks" % (rel.split("/")[-1], wl, name, line),
+                        {"file": rel, "line": wl, "object": name})
+    ck.count("static_objects_scanned", n)
+
+
 def run(ck):
     ck.explanation = "PARTIAL: lock discipline, lock order and deadlock freedom are proved in Coq on skeletons regenerated from the C source on every run; data-race freedom is not provable with this model and is searched with ThreadSanitizer and instrumented semaphores on the real threaded server / client."
     quick = ck.tier == "quick"
@@ -430,6 +472,7 @@ def run(ck):
                "plus callback-re-entry scenarios (handlers call the API). non-trivial = scenario in which frames and API calls actually flowed")
     g, rows = static_part(ck)
     bitfield_part(ck)
+    static_state_part(ck)
     dynamic_part(ck, rng, quick)
     ck.notes.append("data-race freedom is searched (TSan + instrumented semaphores), not proved; lock discipline and deadlock order are proved on the regenerated skeletons")
 
